@@ -100,3 +100,39 @@ CLAIMED.update({
                 text="Bounded search/proof over two packages in one namespace (kebab names <= 3, numeric parts <= 11 / 19, pre-release/build identifiers <= 3 / 4 over {a,0,1,-,.}): "
                      "distinct (name, version) must give distinct module names. Three collision shapes of the version mangling are genuine and listed as known findings; everything else is discharged."),
 })
+
+_RTKANI_NOTE = ("Trusted: Kani 0.68 / CBMC 6.11 (cadical), the mock host's contract (rtkani/src/mock_task.rs and the per-property StreamOps/FutureOps/Subtask "
+                "mocks: which answers a component-model host may give), private-path stubs of the natively unreachable canonical built-ins (listed in "
+                "evidence.assumptions). Level L1 (operation level): the harness plays the exporting task (v1 and v2 task C ABI); the executor "
+                "(start_task/callback/block_on, SharedTaskState's BTreeMap) is outside (C22/C23 not applicable). Schedules are fixed scripts (symbolic schedule "
+                "loops run out of memory at depth 5); host codes, task ABI version, handles and payload bytes are symbolic. Failures are replayed with "
+                "concrete playback natively where possible; a static-aliasing lint guards against a known Kani artefact.")
+CLAIMED.update({
+    "C18": dict(engine="rtkani", level="model_checking", ref="DESIGN §1/E3, §4/C18, §8.6", note=_RTKANI_NOTE,
+                technique="Kani (CBMC) bounded model checking of the real waitable.rs with a mock exporting task and symbolic host answers",
+                text="22 (29 thorough) harnesses: one-task and two-task scripts (v1/v2 in every combination) over register/poll/complete/cancel/drop of a waitable "
+                     "operation; assertions inside the mock task: registered while pending, nowhere registered when cancelled/dropped, callback never invoked after "
+                     "unregistration, each code delivered once, v2 clones balanced. The v1-origin cross-task moves are known findings; v2->v1 was repaired."),
+    "C19": dict(engine="rtkani", level="model_checking", ref="DESIGN §1/E3, §4/C19, §8.6", note=_RTKANI_NOTE,
+                technique="Kani (CBMC) bounded model checking of stream_support.rs / abi_buffer.rs with a mock StreamOps host",
+                text="ReturnCode::decode over all 2^32 codes; AbiBuffer one-step harnesses from every state (len 0/1/3, u8 and lifted payloads); stream write/read "
+                     "scripts with symbolic Completed/Dropped/Cancelled counts, cancel racing completion, drop mid-flight, per-slot lower/lift/dealloc ledger."),
+    "C20": dict(engine="rtkani", level="model_checking", ref="DESIGN §1/E3, §4/C20, §8.6", note=_RTKANI_NOTE,
+                technique="Kani (CBMC) bounded model checking of future_support.rs with a mock FutureOps host that traps on an early drop-writable",
+                text="17 (19) harnesses: write->complete / reader dropped / cancel with symbolic answer, write future dropped mid-flight, writer dropped unwritten "
+                     "(default value path), read, cancel-read with queued completion; payload ledger balanced, cancel outcomes equal what the host produced."),
+    "C21": dict(engine="rtkani", level="model_checking", ref="DESIGN §1/E3, §4/C21, §8.6", note=_RTKANI_NOTE,
+                technique="Kani (CBMC) bounded model checking of subtask.rs with a mock Subtask host",
+                text="11 (22) harnesses: 8 status schedules x {flat, indirect params area} with symbolic codes/handles/task ABI: params_dealloc_lists xor "
+                     "_and_own exactly once (the latter only when cancelled before start), results lifted once iff returned, subtask.drop once iff a handle exists, "
+                     "cancel only while in progress, areas freed once (CBMC memory-leak check)."),
+    "C24": dict(engine="rtkani", level="model_checking", ref="DESIGN §1/E3, §4/C24, §8.6", note=_RTKANI_NOTE + " Alignment of returned addresses is not observable in CBMC's "
+                "pointer model: the Layout handed to the global allocator is checked instead (delegated to the allocator's contract).",
+                technique="Kani (CBMC) over cabi_realloc (guarded cfg hook), rt::Cleanup and the generated cabi_dealloc text",
+                text="6 harnesses: symbolic (old_ptr, old_len, align = 2^k <= 2^16, new_len): non-null, zero-size returns align, contents preserved up to "
+                     "min(old,new) (bytewise <= 16), Layout passed to alloc/realloc/dealloc has the requested size and alignment (sizes <= 2^20), Cleanup null iff size 0 and freed once."),
+})
+ENGINES += [
+    {"name": "rtkani", "path": "/verif/rtkani", "serves_properties": ["C18", "C19", "C20", "C21", "C24"],
+     "kind_free_text": "out-of-tree Kani harness crate (path dependency on crates/guest-rust with the verif cfg) + Python runner (slots, memory caps, cover/unwinding parsing, concrete playback)"},
+]
